@@ -1,11 +1,13 @@
 /-
   C04 — dt() maps every supported spelling of an instant to the same datetime.
   Property theorems only.  `Gen.num2dt`, `Gen.ym`, `Gen.ymd`, `Gen.ymdSwap`, `Gen.re_*` are GENERATED from the
-  current text of src/pyg_base/_dates.py on every run.  What goes through numpy / pandas (datetime64, Timestamp) and the
-  month-name spellings are decided by correspondence only.  The string clauses are about the dialect decision of
-  uk2dt / us2dt (strip, ambiguity test, swap / rejection) on top of the ASSUMED dateutil reading (`duResolve`, the scanner
-  `parseTokens`); the texts are quantified through independent predicates (`IsNumeral`, `TimeText`, `MatchesAmbiguity`),
-  and `ambiguous_iff` ties the hand-written matcher to the semantics of the source regex.
+  current text of src/pyg_base/_dates.py on every run; numpy / pandas timestamps are theorems about the hand-written integer
+  model PygModel/NpDate.lean (only np2dt's class dispatch is generated), month names about dateutil's own table (generated).
+  The string clauses are about what uk2dt / us2dt do (strip, `ambiguity.sub` = `slashes`, ambiguity test, swap / rejection) on
+  top of the ASSUMED dateutil reading (`duResolve`, the scanner `parseTokens`; for day-month-year triples only the text with two
+  `/` is assumed since C04-D4); the texts are quantified through independent predicates (`IsNumeral`, `TimeText`, `IsSepZone`,
+  `MatchesAmbiguity`, `MatchesPadded`), and `ambiguous_iff` / `slashes_iff` tie the hand-written matchers to the semantics of the
+  source regex.
 -/
 import PygModel.DateParse
 import PygProofs.Lemmas.BumpLemmas
@@ -18,6 +20,7 @@ import PygProofs.Lemmas.SqueezeLemmas
 import PygProofs.Lemmas.NpDateLemmas
 import PygProofs.Lemmas.MonthNameLemmas
 import PygProofs.Lemmas.MonthNameStrLemmas
+import PygProofs.Lemmas.SlashesLemmas
 
 namespace Pyg.Props.C04
 open Pyg Pyg.Bump Pyg.DateParse Pyg.Gen Pyg.Greg Pyg.NpDate
@@ -426,7 +429,7 @@ theorem iso_str (uk : Bool) (y m d : Nat) (v : Valid y m d) (yy mm dd tm : List 
     (vy : digitsVal yy = y) (vm : digitsVal mm = m) (vd : digitsVal dd = d) (ht : TimeText tm hms us) :
     dtStr uk (String.ofList (yy ++ '-' :: (mm ++ '-' :: (dd ++ tm)))) = some (checkRange (mkDate y m d + hms + us)) := by
   unfold dtStr
-  rw [String.toList_ofList, clean_iso yy mm dd tm hms us hyy hmm hdd ht]
+  rw [String.toList_ofList, pre_iso yy mm dd tm hms us hyy hy4 hmm hdd ht]
   exact iso_text uk y m d v yy mm dd tm hms us hyy hy4 hmm hm2 hdd hd2 vy vm vd ht
 /-- the ISO date alone, as `strftime('%Y-%m-%d')` writes it -/
 theorem iso_date_text (uk : Bool) (y m d : Nat) (v : Valid y m d) :
@@ -500,9 +503,9 @@ theorem month_name_str (uk : Bool) (y m d : Nat) (v : Valid y m d) (w dd yy tm :
     ∧ dtStr uk (String.ofList (w ++ ' ' :: (dd ++ ' ' :: (yy ++ tm)))) = some (checkRange (mkDate y m d + hms + us)) := by
   have h := month_name_text uk y m d v w dd yy tm hms us hw hdd hyy hy4 vd vy ht
   refine ⟨fun s hs => ?_, ?_, ?_⟩
-  · unfold dtStr; rw [String.toList_ofList, clean_dMy m dd w yy tm s hms us hs hdd hw hyy ht]; exact h.1 s hs
-  · unfold dtStr; rw [String.toList_ofList, clean_Mdy_comma m dd w yy tm hms us hdd hw hyy ht]; exact h.2.1
-  · unfold dtStr; rw [String.toList_ofList, clean_Mdy m dd w yy tm hms us hdd hw hyy ht]; exact h.2.2
+  · unfold dtStr; rw [String.toList_ofList, pre_dMy m dd w yy tm s hms us hs hdd hw hyy ht]; exact h.1 s hs
+  · unfold dtStr; rw [String.toList_ofList, pre_Mdy_comma m dd w yy tm hms us hdd hw hyy ht]; exact h.2.1
+  · unfold dtStr; rw [String.toList_ofList, pre_Mdy m dd w yy tm hms us hdd hw hyy ht]; exact h.2.2
 
 example : dtStr true "13 Sept 2000 10:30" = some (.ok (mkDate 2000 9 13 + 37800000000))
     ∧ dtStr false "  January 1, 2000T23:59:59.999999\n" = some (.ok (mkDate 2000 1 1 + 86399999999)) :=
@@ -546,17 +549,23 @@ theorem rejects_with_outer_ws (y m d : Nat) (hm : 1 ≤ m ∧ m ≤ 12) (hd : 12
   have e : ∀ a b : Nat, pad2 a ++ s1 :: (pad2 b ++ s2 :: (pad4 y ++ []))
       = digit (a / 10) :: ([digit a, s1, digit (b / 10), digit b, s2, digit (y / 1000), digit (y / 100), digit (y / 10)] ++ [digit y]) := by
     intros; rfl
-  have sq : ∀ a b : Nat, squeeze (pad2 a ++ s1 :: (pad2 b ++ s2 :: (pad4 y ++ []))) = pad2 a ++ s1 :: (pad2 b ++ s2 :: (pad4 y ++ [])) :=
-    fun a b => squeeze_padded a b y s1 s2 h1 h2
+  have sq : ∀ a b : Nat, squeeze (pad2 a ++ '/' :: (pad2 b ++ '/' :: (pad4 y ++ []))) = pad2 a ++ '/' :: (pad2 b ++ '/' :: (pad4 y ++ [])) :=
+    fun a b => squeeze_padded a b y '/' '/' (by decide) (by decide)
+  -- `ambiguity.sub`: whatever the two separators, dateutil gets the text with slashes
+  have sl : ∀ a b : Nat, slashes (pad2 a ++ s1 :: (pad2 b ++ s2 :: (pad4 y ++ []))) = pad2 a ++ '/' :: (pad2 b ++ '/' :: (pad4 y ++ [])) := by
+    intro a b
+    have := slashes_of_parts (pad2 a) [s1] (pad2 b) [s2] (pad4 y) [] (isNumeral_pad2 a) ⟨[], [], s1, rfl, by simp [AllWs], by simp [AllWs], h1⟩
+      (isNumeral_pad2 b) ⟨[], [], s2, rfl, by simp [AllWs], by simp [AllWs], h2⟩ ⟨by simp [pad4], all_pad4 y⟩
+    simpa using this
   have st : ∀ a b : Nat, strip (pad2 a ++ s1 :: (pad2 b ++ s2 :: (pad4 y ++ []))) = pad2 a ++ s1 :: (pad2 b ++ s2 :: (pad4 y ++ [])) := by
     intro a b; rw [e]; exact strip_id _ _ _ (digit_not_ws _) (digit_not_ws _)
   constructor
   · rw [e, dt_ignores_outer_ws true ws1 ws2 _ _ _ w1 w2 (digit_not_ws _) (digit_not_ws _), ← e]
-    unfold dtStr; rw [String.toList_ofList, st, sq]
-    exact uk_rejects_us_text y m d hm hd hy s1 s2 h1 h2
+    unfold dtStr; rw [String.toList_ofList, st, sl, sq]
+    exact uk_rejects_us_text y m d hm hd hy '/' '/' (by decide) (by decide)
   · rw [e, dt_ignores_outer_ws false ws1 ws2 _ _ _ w1 w2 (digit_not_ws _) (digit_not_ws _), ← e]
-    unfold dtStr; rw [String.toList_ofList, st, sq]
-    exact us_rejects_uk_text y m d hm hd hy s1 s2 h1 h2
+    unfold dtStr; rw [String.toList_ofList, st, sl, sq]
+    exact us_rejects_uk_text y m d hm hd hy '/' '/' (by decide) (by decide)
 
 example : dtStr false " 13/01/2000" = some (.error .value) ∧ dtStr true "\t02/01/2000 " = some (.ok (mkDate 2000 1 2)) :=
   ⟨eq_of_isValueError (by decide +kernel), eq_of_okView (by decide +kernel)⟩
@@ -607,6 +616,90 @@ example : dtStr false "13 / 01 / 2000" = some (.error .value) ∧ dtStr true "01
     ∧ dtStr true "02 / 01 / 2000" = some (.ok (mkDate 2000 1 2)) ∧ dtStr true "2  1  2000 10:30" = some (.ok (mkDate 2000 1 2 + 37800000000)) :=
   ⟨eq_of_isValueError (by decide +kernel), eq_of_isValueError (by decide +kernel), eq_of_okView (by decide +kernel), eq_of_okView (by decide +kernel)⟩
 
+/-! ### C04-D4: EVERY pair of separators of the quantifier's set, any white space around them and around the text — the
+statement for `dt(<string>)` itself (`dtStr`: `strip`, `ambiguity.sub`, then dateutil and the dialect decision).  The separators
+are described by `IsSepZone` (white space, one of `-` `/` `.` blank, white space: an independent decomposition predicate), so the
+six pairs with exactly one `.` (`'13.01 2000'`, `'13-01.2000'`: dateutil alone reads them as something else or not at all), blanks
+around a `.` and a blank only in front of the year (`'13/01/ 2000'`) are all covered.  What dateutil is ASSUMED to read is now only
+the text with two `/`. -/
+
+/-- the text dateutil gets for `<a><zone><b><zone><yyyy>[ time]` is `a/b/yyyy[ time]` -/
+theorem dtStr_triple (uk : Bool) (ws1 ws2 a z1 b z2 yy tm : List Char) (hms us : Int) (ha : IsNumeral 2 a) (hb : IsNumeral 2 b)
+    (hyy : IsNumeral 4 yy) (hy4 : yy.length = 4) (h1 : IsSepZone z1) (h2 : IsSepZone z2) (ht : TimeText tm hms us)
+    (w1 : AllWs ws1) (w2 : AllWs ws2) :
+    dtStr uk (String.ofList (ws1 ++ (a ++ (z1 ++ (b ++ (z2 ++ (yy ++ tm))))) ++ ws2)) = dtCs uk (a ++ '/' :: (b ++ '/' :: (yy ++ tm))) := by
+  obtain ⟨c0, r, e0, h0⟩ := ha.cons
+  have e : a ++ (z1 ++ (b ++ (z2 ++ (yy ++ tm)))) = (a ++ (z1 ++ (b ++ (z2 ++ yy)))) ++ tm := by simp
+  have hs : strip (ws1 ++ (a ++ (z1 ++ (b ++ (z2 ++ (yy ++ tm))))) ++ ws2) = a ++ (z1 ++ (b ++ (z2 ++ (yy ++ tm)))) := by
+    rw [e]
+    refine strip_wrapped_text ws1 ws2 _ tm hms us c0 (r ++ (z1 ++ (b ++ (z2 ++ yy)))) (by rw [e0]; simp) (notWs_of_digit _ h0) ?_ ?_ ht w1 w2
+    · have := hyy.len_pos; intro h; simp at h; rw [h.2.2.2.2] at this; simp at this
+    · have e2 : a ++ (z1 ++ (b ++ (z2 ++ yy))) = (a ++ (z1 ++ (b ++ z2))) ++ yy := by simp
+      rw [e2]; exact hyy.last_digit _
+  unfold dtStr
+  rw [String.toList_ofList, hs, slashes_of_parts a z1 b z2 yy tm ha h1 hb h2 ⟨by omega, hyy.2.2⟩]
+  have sq := squeeze_padded_seps a b yy tm '/' '/' [] [] [] [] hms us ha hb hyy (Or.inl rfl) (Or.inl rfl) (by simp) (by simp) (by simp) (by simp) ht
+  simp only [List.nil_append] at sq
+  rw [sq]
+
+/-- UK: `dt('<d><sep><m><sep><yyyy>[ time]')` is the instant to the microsecond — any two separators, any white space -/
+theorem uk_str_any_seps (y m d : Nat) (v : Valid y m d) (hy : 32 ≤ y ∧ y < 9999) (ws1 ws2 a z1 b z2 yy tm : List Char) (hms us : Int)
+    (ha : IsNumeral 2 a) (hb : IsNumeral 2 b) (hyy : IsNumeral 4 yy) (hy4 : yy.length = 4)
+    (va : digitsVal a = d) (vb : digitsVal b = m) (vy : digitsVal yy = y)
+    (h1 : IsSepZone z1) (h2 : IsSepZone z2) (ht : TimeText tm hms us) (w1 : AllWs ws1) (w2 : AllWs ws2) :
+    dtStr true (String.ofList (ws1 ++ (a ++ (z1 ++ (b ++ (z2 ++ (yy ++ tm))))) ++ ws2)) = some (checkRange (mkDate y m d + hms + us)) := by
+  rw [dtStr_triple true ws1 ws2 a z1 b z2 yy tm hms us ha hb hyy hy4 h1 h2 ht w1 w2]
+  exact uk_text_gen y m d v hy a b yy tm '/' '/' hms us ha hb hyy hy4 va vb vy (by decide) (by decide) ht
+
+/-- US: `dt('<m><sep><d><sep><yyyy>[ time]', dialect = 'us')` -/
+theorem us_str_any_seps (y m d : Nat) (v : Valid y m d) (ws1 ws2 a z1 b z2 yy tm : List Char) (hms us : Int)
+    (ha : IsNumeral 2 a) (hb : IsNumeral 2 b) (hyy : IsNumeral 4 yy) (hy4 : yy.length = 4)
+    (va : digitsVal a = m) (vb : digitsVal b = d) (vy : digitsVal yy = y)
+    (h1 : IsSepZone z1) (h2 : IsSepZone z2) (ht : TimeText tm hms us) (w1 : AllWs ws1) (w2 : AllWs ws2) :
+    dtStr false (String.ofList (ws1 ++ (a ++ (z1 ++ (b ++ (z2 ++ (yy ++ tm))))) ++ ws2)) = some (checkRange (mkDate y m d + hms + us)) := by
+  rw [dtStr_triple false ws1 ws2 a z1 b z2 yy tm hms us ha hb hyy hy4 h1 h2 ht w1 w2]
+  exact us_text_gen y m d v a b yy tm '/' '/' hms us ha hb hyy hy4 va vb vy (by decide) (by decide) ht
+
+/-- the other dialect's day > 12 text is rejected, never silently swapped and never another date — any two separators -/
+theorem str_rejects_any_seps (y m d : Nat) (hm : 1 ≤ m ∧ m ≤ 12) (hd : 12 < d) (ws1 ws2 a z1 b z2 yy tm : List Char) (hms us : Int)
+    (ha : IsNumeral 2 a) (hb : IsNumeral 2 b) (hyy : IsNumeral 4 yy) (hy4 : yy.length = 4) (vy : digitsVal yy = y)
+    (h1 : IsSepZone z1) (h2 : IsSepZone z2) (ht : TimeText tm hms us) (w1 : AllWs ws1) (w2 : AllWs ws2) :
+    (digitsVal a = m → digitsVal b = d →
+      dtStr true (String.ofList (ws1 ++ (a ++ (z1 ++ (b ++ (z2 ++ (yy ++ tm))))) ++ ws2)) = some (.error .value))
+    ∧ (digitsVal a = d → digitsVal b = m →
+      dtStr false (String.ofList (ws1 ++ (a ++ (z1 ++ (b ++ (z2 ++ (yy ++ tm))))) ++ ws2)) = some (.error .value)) := by
+  constructor
+  · intro va vb
+    rw [dtStr_triple true ws1 ws2 a z1 b z2 yy tm hms us ha hb hyy hy4 h1 h2 ht w1 w2]
+    exact uk_rejects_us_text_gen y m d hm hd a b yy tm '/' '/' hms us ha hb hyy hy4 va vb vy (by decide) (by decide) ht
+  · intro va vb
+    rw [dtStr_triple false ws1 ws2 a z1 b z2 yy tm hms us ha hb hyy hy4 h1 h2 ht w1 w2]
+    exact us_rejects_uk_text_gen y m d hm hd a b yy tm '/' '/' hms us ha hb hyy hy4 va vb vy (by decide) (by decide) ht
+
+/-- `slashes` against the regex SEMANTICS, both directions: a text is rewritten (to `a/b/` + the year and what follows it) exactly
+when it matches `^d{1,2}\s*SEP\s*d{1,2}\s*SEP\s*d{2,4}` (`MatchesPadded`, a decomposition of the text), and is left alone otherwise -/
+theorem slashes_iff (cs : List Char) :
+    (MatchesPadded cs → ∃ a b tail z1 z2, cs = a ++ (z1 ++ (b ++ (z2 ++ tail))) ∧ IsNumeral 2 a ∧ IsNumeral 2 b ∧ IsSepZone z1 ∧ IsSepZone z2
+        ∧ slashes cs = a ++ '/' :: (b ++ '/' :: tail))
+    ∧ (¬ MatchesPadded cs → slashes cs = cs) := by
+  refine ⟨fun h => ?_, slashes_no_match cs⟩
+  obtain ⟨a, b, tail, e, ha, hb, z1, z2, ec, h1, h2⟩ := slashes_of_match cs h
+  exact ⟨a, b, tail, z1, z2, ec, ha, hb, h1, h2, e⟩
+
+-- non-vacuity: zones of the six one-dot pairs, with white space; the instances the pinned code got wrong
+example : IsSepZone ".".toList ∧ IsSepZone " ".toList ∧ IsSepZone " . ".toList ∧ IsSepZone "/ ".toList ∧ IsSepZone "\t-".toList :=
+  ⟨⟨[], [], '.', rfl, by simp [AllWs], by simp [AllWs], by decide⟩, ⟨[], [], ' ', rfl, by simp [AllWs], by simp [AllWs], by decide⟩,
+   ⟨[' '], [' '], '.', rfl, by simp [AllWs, isWs], by simp [AllWs, isWs], by decide⟩,
+   ⟨[], [' '], '/', rfl, by simp [AllWs], by simp [AllWs, isWs], by decide⟩,
+   ⟨['\t'], [], '-', rfl, by simp [AllWs, isWs], by simp [AllWs], by decide⟩⟩
+example : dtStr false "01.13 2000" = some (.ok (mkDate 2000 1 13)) ∧ dtStr true "02 01.2000" = some (.ok (mkDate 2000 1 2))
+    ∧ dtStr true "13/01/ 2000" = some (.ok (mkDate 2000 1 13)) ∧ dtStr true "13 .01.2000 10:30" = some (.ok (mkDate 2000 1 13 + 37800000000)) :=
+  ⟨eq_of_okView (by decide +kernel), eq_of_okView (by decide +kernel), eq_of_okView (by decide +kernel), eq_of_okView (by decide +kernel)⟩
+example : dtStr true "01.13 2000" = some (.error .value) ∧ dtStr false "13-01.2000" = some (.error .value) :=
+  ⟨eq_of_isValueError (by decide +kernel), eq_of_isValueError (by decide +kernel)⟩
+example : slashes "2000-01-13".toList = "2000-01-13".toList ∧ slashes "13 Jan 2000".toList = "13 Jan 2000".toList
+    ∧ slashes "1 . 2 -2000x".toList = "1/2/2000x".toList ∧ slashes "1/2/3".toList = "1/2/3".toList := by decide +kernel
+
 /-! ### ymd(spelling): the date of the instant -/
 
 /-- whenever `dt(text)` is an instant of the day `(y, m, d)`, `ymd(text)` is midnight of that day -/
@@ -639,6 +732,31 @@ theorem ymd_of_iso_text (uk : Bool) (y m d : Nat) (v : Valid y m d) (yy mm dd tm
   apply ymd_of_text uk _ y m d v (hms + us) h0
   rw [iso_text uk y m d v yy mm dd tm hms us hyy hy4 hmm hm2 hdd hd2 vy vm vd ht]
   congr 1; rw [checkRange_ok]; exact ⟨by omega, by omega⟩
+
+theorem ymd_of_us_text (y m d : Nat) (v : Valid y m d) (a b yy tm : List Char) (s1 s2 : Char) (hms us : Int)
+    (ha : IsNumeral 2 a) (hb : IsNumeral 2 b) (hyy : IsNumeral 4 yy) (hy4 : yy.length = 4)
+    (va : digitsVal a = m) (vb : digitsVal b = d) (vy : digitsVal yy = y)
+    (h1 : isDateSep s1 = true) (h2 : isDateSep s2 = true) (ht : TimeText tm hms us) (h0 : 0 ≤ hms + us ∧ hms + us < DAYUS) :
+    ymdCs false (a ++ s1 :: (b ++ s2 :: (yy ++ tm))) = some (.ok (mkDate y m d)) := by
+  have hm := mkDate_day_in_range y m d v
+  apply ymd_of_text false _ y m d v (hms + us) h0
+  rw [us_text_gen y m d v a b yy tm s1 s2 hms us ha hb hyy hy4 va vb vy h1 h2 ht]
+  congr 1; rw [checkRange_ok]; exact ⟨by omega, by omega⟩
+
+theorem ymd_of_month_name_text (uk : Bool) (y m d : Nat) (v : Valid y m d) (w dd yy tm : List Char) (hms us : Int)
+    (hw : IsMonthName m w) (hdd : IsNumeral 2 dd) (hyy : IsNumeral 4 yy) (hy4 : yy.length = 4)
+    (vd : digitsVal dd = d) (vy : digitsVal yy = y) (ht : TimeText tm hms us) (h0 : 0 ≤ hms + us ∧ hms + us < DAYUS) :
+    (∀ s, s = ' ' ∨ s = '-' → ymdCs uk (dd ++ s :: (w ++ s :: (yy ++ tm))) = some (.ok (mkDate y m d)))
+    ∧ ymdCs uk (w ++ ' ' :: (dd ++ ',' :: ' ' :: (yy ++ tm))) = some (.ok (mkDate y m d))
+    ∧ ymdCs uk (w ++ ' ' :: (dd ++ ' ' :: (yy ++ tm))) = some (.ok (mkDate y m d)) := by
+  have hm := mkDate_day_in_range y m d v
+  have h := month_name_text uk y m d v w dd yy tm hms us hw hdd hyy hy4 vd vy ht
+  have e : checkRange (mkDate y m d + hms + us) = .ok (mkDate y m d + (hms + us)) := by
+    rw [checkRange_ok]; exact ⟨by omega, by omega⟩
+  refine ⟨fun s hs => ?_, ?_, ?_⟩
+  · apply ymd_of_text uk _ y m d v (hms + us) h0; rw [h.1 s hs, e]
+  · apply ymd_of_text uk _ y m d v (hms + us) h0; rw [h.2.1, e]
+  · apply ymd_of_text uk _ y m d v (hms + us) h0; rw [h.2.2, e]
 
 example : ymdCs true "13/01/2000 10:30".toList = some (.ok (mkDate 2000 1 13)) := eq_of_okView (by decide +kernel)
 
@@ -688,11 +806,13 @@ example : MatchesAmbiguity "13/1/2000 10:30".toList :=
   ⟨"13".toList, "1".toList, "2000".toList, " 10:30".toList, '/', '/', rfl, by decide, by decide, by decide, rfl, rfl⟩
 example : firstTwo "1 13 2000".toList = 1 ∧ firstTwo "13.01.2000".toList = 13 := by decide
 
-/-- the regex SOURCE the matcher was written for is the one in the code (a changed regex text breaks this theorem).  It is the
-tight pattern of `MatchesAmbiguity` with `\s*` allowed on both sides of each separator; the model removes those blanks first
-(`squeeze`, theorems `squeeze_padded_seps`, `dt_padded_seps`, `uk_padded_seps_text`, `rejects_padded_seps`) and what the matcher does on the tight text is pinned to the
-regex semantics by `ambiguous_iff`. -/
-theorem ambiguity_regex_is_modelled : Gen.re_ambiguity = "^[0-9]{1,2}\\s*[-/ .]\\s*[0-9]{1,2}\\s*[-/ .]\\s*[0-9]{2,4}" := rfl
+/-- the regex SOURCE the matchers were written for is the one in the code (a changed regex text breaks this theorem).  It is the
+tight pattern of `MatchesAmbiguity` with `\s*` allowed on both sides of each separator and (since C04-D4) a group around each
+number; `uk2dt` / `us2dt` rewrite a matching text to `\1/\2/\3` before anything else (`slashes`, tied to the regex semantics
+`MatchesPadded` by `slashes_iff`), so the dialect test and dateutil only ever see the tight form, and what the model's matcher does
+on the tight text is pinned to the regex semantics by `ambiguous_iff`. -/
+theorem ambiguity_regex_is_modelled :
+    Gen.re_ambiguity = "^([0-9]{1,2})\\s*[-/ .]\\s*([0-9]{1,2})\\s*[-/ .]\\s*([0-9]{2,4})" := rfl
 
 /-! ### dt(dt2str(t)) == t -/
 
@@ -761,7 +881,7 @@ theorem dt2str_roundtrip (t : Int) (h0 : mkDate 1000 1 1 ≤ t) (h1 : t < MAXUS)
 /-- the same on strings: `dt(dt2str(t))` -/
 theorem dt2str_roundtrip_str (t : Int) (h0 : mkDate 1000 1 1 ≤ t) (h1 : t < MAXUS) (uk : Bool) :
     dtStr uk (dt2str t) = some (.ok t) := by
-  unfold dtStr dt2str; rw [String.toList_ofList, strip_dt2strCs, squeeze_dt2strCs]; exact dt2str_roundtrip t h0 h1 uk
+  unfold dtStr dt2str; rw [String.toList_ofList, strip_dt2strCs, slashes_dt2strCs, squeeze_dt2strCs]; exact dt2str_roundtrip t h0 h1 uk
 
 -- non-vacuity: 2000-01-10T20:30:40.000050 (the docstring example of dt2str)
 example : dt2str 63083133040000050 = "2000-01-10T20:30:40.000050" ∧ mkDate 1000 1 1 ≤ 63083133040000050 ∧ (63083133040000050 : Int) < MAXUS := by
@@ -925,6 +1045,18 @@ theorem greg_roundtrip_ord (n : Nat) (h1 : 1 ≤ n) (h2 : n ≤ 3652059) :
 theorem fields_of_date (y m d : Nat) (v : Valid y m d) : ymdOf (mkDate y m d) = ⟨y, m, d⟩ := ymdOf_mkDate y m d v
 
 /-! ### ymd() drops the time of day -/
+
+/-- `dt(date)`: the model function of the `datetime.date` branch (`datetime(t.year, t.month, t.day)`, `dtDate`, used by the driver's
+`date` op) returns midnight of that date — every date of years 1..9999 -/
+theorem dt_of_date (t : Int) (h0 : 0 ≤ t) (h1 : t < MAXUS) (hm : todOf t = 0) : dtDate t = .ok t := by
+  unfold dtDate; rw [ymd_drops_time' t h0 h1, hm, Int.sub_zero]
+
+theorem dt_of_date_ymd (y m d : Nat) (v : Valid y m d) : dtDate (mkDate y m d) = .ok (mkDate y m d) := by
+  have hr := mkDate_day_in_range y m d v
+  refine dt_of_date _ (by omega) (by unfold DAYUS at hr; omega) ?_
+  unfold todOf mkDate ofOrd DAYUS; omega
+
+example : dtDate (mkDate 2000 2 29) = .ok (mkDate 2000 2 29) := dt_of_date_ymd 2000 2 29 (by decide)
 
 /-- `ymd(t)` is midnight of the same day, for every representable datetime -/
 theorem ymd_drops_time (t : Int) (h0 : 0 ≤ t) (h1 : t < MAXUS) :
